@@ -1,5 +1,5 @@
 """Property -> rules registry.  Rules are added here as they are built; a property without rules is not claimed."""
-from .rules import determinism, panics, wiring, traversal, annot, shape, hygiene, enums, shrinking, fresh, sharing, codegen, abi, pmoves, labels, runtime, typing as typing_rules, formatting
+from .rules import determinism, panics, wiring, traversal, annot, shape, hygiene, enums, shrinking, fresh, sharing, codegen, abi, pmoves, labels, runtime, typing as typing_rules, formatting, linear
 
 
 def _thorough_only(rule):
@@ -82,7 +82,8 @@ PROPS = {
                         "ABI tables (SysV x86-64, AAPCS64) in analysis/isa.py"],
     },
     "C06": {
-        "rules": [codegen.rule_isel("x86_64"), enums.rule_enum_dispatch, traversal.rule_trav(["axcut2backend::statements::code_statement::CodeStatement"])],
+        "rules": [codegen.rule_isel("x86_64"), enums.rule_enum_dispatch, traversal.rule_trav(["axcut2backend::statements::code_statement::CodeStatement"]),
+                  abi.rule_abi_cached("x86_64"), pmoves.rule_cycle],
         "text": "Instruction-selection templates of the x86-64 backend validated for every reachable operand placement (environment "
                 "positions straddling the register/spill boundary): each emission function (add, sub, mul, div, rem, mov, "
                 "load_immediate with boundary literals of every magnitude, the twelve conditional jumps) is folded from its MIR into "
@@ -95,7 +96,8 @@ PROPS = {
                         "ISA semantics table in analysis/isa.py (x86-64: mov/add/sub/imul/idiv/cqo/cmp/jcc/push/pop; AArch64; RV64)"],
     },
     "C07": {
-        "rules": [codegen.rule_isel("aarch64"), enums.rule_enum_dispatch, traversal.rule_trav(["axcut2backend::statements::code_statement::CodeStatement"])],
+        "rules": [codegen.rule_isel("aarch64"), enums.rule_enum_dispatch, traversal.rule_trav(["axcut2backend::statements::code_statement::CodeStatement"]),
+                  abi.rule_abi_cached("aarch64"), pmoves.rule_cycle],
         "text": "Instruction-selection templates of the AArch64 backend validated for every reachable operand placement (environment "
                 "positions straddling the register/spill boundary): each emission function (add, sub, mul, div, rem, mov, "
                 "load_immediate with boundary literals of every magnitude, the twelve conditional jumps) is folded from its MIR into "
@@ -108,7 +110,8 @@ PROPS = {
                         "ISA semantics table in analysis/isa.py (x86-64: mov/add/sub/imul/idiv/cqo/cmp/jcc/push/pop; AArch64; RV64)"],
     },
     "C08": {
-        "rules": [codegen.rule_isel("rv64"), enums.rule_enum_dispatch, traversal.rule_trav(["axcut2backend::statements::code_statement::CodeStatement"])],
+        "rules": [codegen.rule_isel("rv64"), enums.rule_enum_dispatch, traversal.rule_trav(["axcut2backend::statements::code_statement::CodeStatement"]),
+                  pmoves.rule_cycle],
         "text": "Instruction-selection templates of the RISC-V backend validated for every reachable operand placement (environment "
                 "positions straddling the register/spill boundary): each emission function (add, sub, mul, div, rem, mov, "
                 "load_immediate with boundary literals of every magnitude, the twelve conditional jumps) is folded from its MIR into "
@@ -121,7 +124,7 @@ PROPS = {
                         "ISA semantics table in analysis/isa.py (x86-64: mov/add/sub/imul/idiv/cqo/cmp/jcc/push/pop; AArch64; RV64)"],
     },
     "C04": {
-        "rules": [shape.rule_shape, shrinking.rule_chirality, shrinking.rule_samesrc, shrinking.rule_declsrc, enums.rule_enum_maps({"core2axcut"}),
+        "rules": [shape.rule_shape, shrinking.rule_chirality, shrinking.rule_samesrc, shrinking.rule_declsrc, shrinking.rule_idcmp, enums.rule_enum_maps({"core2axcut"}),
                   fresh.rule_fresh, fresh.rule_maxid, traversal.rule_trav(["core2axcut::shrinking::Shrinking", "scc_core_lang::traits::substitution::SubstVar",
                                                                           "scc_core_lang::traits::typed_free_vars::TypedFreeVars"])],
         "text": "Structural necessary conditions of shrinking: all 18 well-typed (producer, consumer) cut shapes are handled before the "
@@ -163,7 +166,7 @@ PROPS = {
     "C05": {
         "rules": [traversal.rule_trav(["axcut::traits::free_vars::FreeVars", "axcut::traits::substitution::Subst",
                                    "axcut::traits::typed_free_vars::TypedFreeVars", "axcut::traits::linearize::Linearizing"]), wiring.rule_wire_intra, annot.rule_annot_freevars, shape.rule_shape,
-                  fresh.rule_fresh],
+                  fresh.rule_fresh, linear.rule_linear_subst],
         "text": "Structural necessary conditions of linearization: every FreeVars/Subst/TypedFreeVars/Linearizing impl of AxCut visits "
                 "every sub-statement (R-TRAV), free-variable annotation precedes linearization (R-WIRE) and is set on every path "
                 "(R-ANNOT), only Substitute reaches the panic of Statement::linearize (R-SHAPE).",
